@@ -462,12 +462,13 @@ class Out:
 
 class ExcRec:
     """an exception in flight: the abstract exception object, where it originated, the call chain from the current function"""
-    __slots__ = ('atom', 'origin', 'chain', 'converted_from', 'implicit', 'uncertain')
+    __slots__ = ('atom', 'origin', 'chain', 'converted_from', 'implicit', 'uncertain', 'pfacts')
 
     def __init__(self, atom, origin, chain, converted_from=None, implicit=False, uncertain=False):
         self.atom, self.origin, self.chain, self.converted_from = atom, origin, chain, converted_from
         self.implicit = implicit      # stands for whatever the try body raises implicitly for this handler: never leaves it
         self.uncertain = uncertain    # raised only because a value is unknown to the analysis (not positively user controlled)
+        self.pfacts = None            # path facts at the point of raising (what the failing call itself would have established does not hold)
 
     @property
     def cls(self):
@@ -763,6 +764,7 @@ class Interp:
         self.reached_nodes = set()
         self.binding_atoms = set()
         self.unrefined_type_tests = set()
+        self.decided_quantifiers = set()
         self.summary_depth = 0
         self.unroll_depth = 0
         self.unroll_index = []    # position in every enclosing unrolled loop / comprehension
@@ -1001,7 +1003,11 @@ class Interp:
         """exceptions raised while evaluating the expressions of the current statement become outcomes"""
         if fr.pending:
             for rec in fr.pending:
-                out.exc.append((store.copy(), rec))
+                s_ = store.copy()
+                if rec.pfacts is not None:
+                    s_.facts = rec.pfacts & s_.facts
+                    rec.pfacts = None
+                out.exc.append((s_, rec))
             fr.pending = []
 
     def exec_stmt(self, fr, st, store):
@@ -1033,6 +1039,8 @@ class Interp:
     st_Nonlocal = st_Global
 
     def st_Delete(self, fr, st, store, out):
+        if any(isinstance(t, ast.Subscript) for t in st.targets):
+            store.facts = frozenset(f for f in store.facts if f[0] != 'in')
         out.next.append(store)
 
     def st_TypeAlias(self, fr, st, store, out):
@@ -1190,6 +1198,8 @@ class Interp:
                     if isinstance(t, ast.Name):
                         ci.attrs[t.id] = v
                         cframe.store.vars[t.id] = v
+                        if len(v) == 1 and next(iter(v))[0] == 'fn' and next(iter(v))[1] in ci.methods.values():
+                            ci.methods[t.id] = next(iter(v))[1]       # __str__ = describe
             elif isinstance(b, (ast.Expr, ast.Pass)):
                 pass
             else:
@@ -1377,7 +1387,12 @@ class Interp:
         if st.exc is None:
             if not fr.handling:
                 raise self.err(st, 'bare raise outside a handler')
-            for rec in fr.handling[-1]:
+            recs = fr.handling[-1]
+            h_ = store.vars.get('$handling')
+            if h_:
+                # narrowed by isinstance tests on the way here: only the exceptions that can still be the one being handled
+                recs = [r for a in h_ if a[0] == 'caught' for r in self.recs_of(a)]
+            for rec in recs:
                 if not rec.implicit:
                     out.exc.append((store.copy(), rec))
             return
@@ -1394,7 +1409,7 @@ class Interp:
             elif a[0] == 'obj':
                 self.raise_atom(fr, a, st, store, out)
             elif a[0] == 'caught':
-                for rec in self.caught_tbl.get(a[1], []):
+                for rec in self.recs_of(a):
                     if not rec.implicit:
                         out.exc.append((store.copy(), rec))
             elif a == TOP:
@@ -1688,8 +1703,9 @@ class Interp:
                     seen.add(r.key())
                     recs.append(r)
             fr.store = s
+            self.caught_tbl[id(h)] = recs
+            s.vars['$handling'] = av(('caught', id(h)))
             if h.name:
-                self.caught_tbl[id(h)] = recs
                 self.bind(fr, h.name, av(('caught', id(h))))
             fr.handling.append(recs)
             try:
@@ -1716,6 +1732,13 @@ class Interp:
                 fin.absorb(of)
             res = fin
         out.absorb(res, True)
+
+    def recs_of(self, a):
+        """the exceptions a handler variable may hold (all the handler caught, or the part an isinstance test left)"""
+        recs = self.caught_tbl.get(a[1], [])
+        if len(a) > 2:
+            recs = [r for r in recs if r.key() in a[2]]
+        return recs
 
     def handler_type_names(self, fr, h):
         if h.type is None:
@@ -1774,7 +1797,11 @@ class Interp:
                 if new.atom[2] == ('caught', id(h)):
                     continue
                 if new.atom[2] != r.atom[2] or r.atom[2] in ('*', '?'):
-                    self.ev_relabel.setdefault((id(h), id(new.origin)), (fr.qual, h, new, r))
+                    k_ = (id(h), id(new.origin))
+                    cur = self.ev_relabel.get(k_)
+                    # keep the instance whose two lines are both known, if there is one
+                    if cur is None or ((cur[2].atom[2] in ('*', '?') or cur[3].atom[2] in ('*', '?')) and new.atom[2] not in ('*', '?') and r.atom[2] not in ('*', '?')):
+                        self.ev_relabel[k_] = (fr.qual, h, new, r)
 
     # -- structural pattern matching --------------------------------------------------------------------------------------------
     def st_Match(self, fr, st, store, out):
@@ -2227,6 +2254,8 @@ class Interp:
             ov = self.eval(fr, target.value)
             self.store_attr(fr, ov, target.attr, val, node)
         elif isinstance(target, ast.Subscript):
+            # what was known about elements at fixed positions is no longer known
+            fr.store.facts = frozenset(f for f in fr.store.facts if not self.mentions_sub(f))
             self.assign_subscript(fr, target, val, node)
         elif isinstance(target, ast.Starred):
             self.assign(fr, target.value, val, node)
@@ -2463,7 +2492,7 @@ class Interp:
                     self.heap[key] = new
                     self.changed = True
                     self.why.append(('heap', key, new - old))
-                ek = (id(node), id(site))
+                ek = (id(node), id(site), attr)
                 ev = self.ev_store.get(ek)
                 if ev is None:
                     self.ev_store[ek] = {'node': node, 'site': site, 'qual': sq, 'cls': {base_class(cls)}, 'attr': attr, 'val': val, 'ctor': ctor}
@@ -2537,7 +2566,7 @@ class Interp:
             return BOT
         if k == 'caught':
             out = BOT
-            for rec in self.caught_tbl.get(a[1], []):
+            for rec in self.recs_of(a):
                 v = self.load_attr_atom(fr, rec.atom, attr, node)
                 # the line of the error caught by this handler is that very line, however little is known about it
                 out = join(out, map_tags(v, lambda t, h=a[1]: ('caught', h)))
@@ -2689,6 +2718,14 @@ class Interp:
                 idx = ('idx', a[1], origin)
                 if es:
                     out = join(out, av(('seq', 'tuple', (av(idx), es))))
+            elif k == 'zip' and len(a[1]) == 2 and any(len(c_) == 1 and next(iter(c_))[0] == 'count' for c_ in a[1]) \
+                    and any(c_ and all(b[0] == 'lines' for b in c_) for c_ in a[1]):
+                ci_ = 0 if (len(a[1][0]) == 1 and next(iter(a[1][0]))[0] == 'count') else 1
+                cnt = next(iter(a[1][ci_]))
+                other = a[1][1 - ci_]
+                idx = av(('idx', cnt[1], frozenset(other)))
+                elem = frozenset(('str', 'u', ('elem', b)) for b in other)
+                out = join(out, av(('seq', 'tuple', (idx, elem) if ci_ == 0 else (elem, idx))))
             elif k == 'zip':
                 parts = []
                 for x in a[1]:
@@ -2703,6 +2740,8 @@ class Interp:
                     out = join(out, av(('seq', 'tuple', tuple(parts))))
             elif k == 'range':
                 out = join(out, av(INT_S))
+            elif k == 'count':
+                out = join(out, av(INT_U))
             elif is_str_atom(a):
                 out = join(out, av(('str', str_taint(a), None)))
             elif k == 'bytes' or (k == 'c' and a[1] == 'bytes'):
@@ -2779,6 +2818,10 @@ class Interp:
     ex_Await = ex_Yield
 
     def display(self, fr, node, kind):
+        if kind in ('list', 'tuple') and len(node.elts) == 1 and isinstance(node.elts[0], ast.Starred):
+            sv = self.eval(fr, node.elts[0].value)
+            if sv and all(a[0] == 'lines' for a in sv):
+                return sv           # [*rows]: a copy of the source lines
         vals = []
         exact = True
         extra = BOT
@@ -3215,7 +3258,48 @@ class Interp:
                 self.eval(fr, node.slice.step)
             return self.slice_of(fr, v, lo, hi, node)
         idx = self.eval(fr, node.slice)
-        return self.index_of(fr, v, idx, node)
+        r = self.index_of(fr, v, idx, node)
+        if isinstance(node.ctx, ast.Load):
+            self.key_lookup(fr, node, v, idx)
+        if isinstance(node.slice, ast.Name) and not isinstance(node.ctx, ast.Store):
+            # items[i] with a running index: the element read here is one specific element (like the target of a for loop)
+            tag = ('sub',) + pos_of(node)
+            hit = []
+
+            def f(t):
+                if t == '*':
+                    hit.append(t)
+                    return tag
+                return t
+            r = map_tags(r, f)
+            if hit:
+                fr.local_tags.add(tag)
+        return r
+
+    def key_lookup(self, fr, node, v, idx):
+        """table[key] where key is a token the user wrote and the table is not known to hold it: KeyError.  (Keys read back
+        from fields of items - mnemonics, directive names - were selected by the parser against the same tables: not judged.)"""
+        dicts = [a for a in v if a[0] in ('dict', 'kdict')]
+        if not dicts or len(dicts) != len(v):
+            return
+        toks = [x for x in idx if x[0] == 'tok']
+        if not toks:
+            return
+        for a in dicts:
+            if a[0] == 'kdict':
+                keys = {kk[2] for kk, _ in a[1] if kk[1] == 'str'}
+                if all(x[2] == 0 and x[1] is not None and set(x[1]) <= keys for x in toks):
+                    continue        # the head of a token list that was selected among these keys
+            ks, ts = self.sym_of(fr, node.slice), self.sym_of(fr, node.value)
+            if ks is not None and ts is not None and ('in', ks, ts) in fr.store.facts:
+                return              # `key in table` holds on every path to here
+            self.library_raise(fr, 'KeyError', node)
+            return
+
+    @staticmethod
+    def mark_moved(val):
+        """elements of the source lines that were filtered / shifted: their position in the new sequence is no longer their line"""
+        return frozenset(('str', a[1], ('elem', a[2][1], 'moved')) if a[0] == 'str' and isinstance(a[2], tuple) and a[2][0] == 'elem' else a for a in val)
 
     @staticmethod
     def const_int(val):
@@ -3249,8 +3333,15 @@ class Interp:
                     out = join(out, av(STR_S if a[1] == 'str' else BYTES))
             elif is_str_atom(a):
                 out = join(out, av(('str', str_taint(a), 'maybe-size' if (k == 'str' and a[2] == 'maybe-size') else None)))
-            elif k in ('list', 'bytes', 'lines'):
-                out = join(out, av(a) if k != 'lines' else av(('list', av(('str', 'u', None)))))
+            elif k == 'lines':
+                if known and clo == 0 and hi is None:
+                    out = join(out, av(a))          # rows[:] is a copy
+                elif known and clo > 0:
+                    out = join(out, av(('list', av(('str', 'u', ('elem', a, 'moved'))))))
+                else:
+                    out = join(out, av(('list', av(('str', 'u', None)))))
+            elif k in ('list', 'bytes'):
+                out = join(out, av(a))
             elif a == TOP or a == EXT:
                 out = join(out, av(a))
         return out
@@ -3418,6 +3509,10 @@ class Interp:
             toks = [a for a in itv if a[0] == 'toks']
             if toks and all(a[0] in ('toks',) for a in itv):
                 return frozenset(('toks', a[1], None, a[3]) for a in toks)
+            if itv and all(a[0] == 'lines' for a in itv):
+                if not node.generators[0].ifs:
+                    return itv      # an unfiltered copy of the source lines: same lines at the same positions
+                return av(('list', self.mark_moved(elem)))
         return out
 
     def ex_GeneratorExp(self, fr, node):
@@ -3431,6 +3526,16 @@ class Interp:
         elem = BOT
         for r in res:
             elem = join(elem, erase_tags(r[0]))
+        if len(node.generators) == 1 and isinstance(node.elt, ast.Name) and isinstance(node.generators[0].target, ast.Name) \
+                and node.elt.id == node.generators[0].target.id:
+            try:
+                itv = self.eval(fr, node.generators[0].iter)
+            except Unreachable:
+                itv = BOT
+            if itv and all(a[0] == 'lines' for a in itv):
+                if not node.generators[0].ifs:
+                    return itv
+                return av(('list', self.mark_moved(elem)))
         return av(('list', elem))
 
     def ex_SetComp(self, fr, node):
@@ -3460,6 +3565,40 @@ class Interp:
     def cond(self, fr, test, store, refine=True, value=None):
         """(may be true, store if true, may be false, store if false); the two stores are distinct objects when both are
         possible and refinement is on"""
+        fact = None
+        if value is None and refine and isinstance(test, ast.Compare) and len(test.ops) == 1 and isinstance(test.ops[0], (ast.In, ast.NotIn)):
+            # `key in table`: remembered for table[key] on the side where it holds
+            fr.store = store
+            keep = list(fr.pending)
+            try:
+                fact = self.member_fact(fr, test.left, test.comparators[0])
+            finally:
+                fr.pending = keep
+        r = self.cond_inner(fr, test, store, refine, value)
+        if fact is not None:
+            ct, s_t, cf, s_f = r
+            if s_t is s_f:
+                s_f = s_t.copy()
+            side = s_t if isinstance(test.ops[0], ast.In) else s_f
+            side.facts = side.facts | {fact}
+            r = (ct, s_t, cf, s_f)
+        return r
+
+    def member_fact(self, fr, key, table):
+        if not isinstance(table, (ast.Name, ast.Attribute)):
+            return None
+        try:
+            tv = self.eval(fr, table)
+        except (AnalysisError, Unreachable):
+            return None
+        if not tv or not all(a[0] in ('dict', 'kdict') for a in tv):
+            return None
+        ks, ts = self.sym_or_make(fr, key), self.sym_or_make(fr, table)
+        if ks is None or ts is None:
+            return None
+        return ('in', ks, ts)
+
+    def cond_inner(self, fr, test, store, refine=True, value=None):
         fr.store = store
         if isinstance(test, ast.BoolOp) and value is None:
             is_and = isinstance(test.op, ast.And)
@@ -3493,13 +3632,15 @@ class Interp:
             r = self.cond_compare(fr, test, store, refine)
             if r is not None:
                 return r
+        if value is None and isinstance(test, ast.Compare) and refine:
+            r = self.cond_bounds(fr, test, store)
+            if r is not None:
+                return r
         if value is None and isinstance(test, ast.Call):
             r = self.cond_call(fr, test, store, refine)
             if r is not None:
                 return r
         # generic: truthiness of the value
-        if value is None and self.mentions_type_test(test):
-            self.unrefined_type_tests.add(id(test))
         alts = None
         if value is not None:
             v = value
@@ -3509,6 +3650,8 @@ class Interp:
             fr.call_alts.pop(id(test), None)
             v = self.eval(fr, test)
             alts = fr.call_alts.pop(id(test), None) if isinstance(test, ast.Call) else None
+        if value is None and self.mentions_type_test(test) and id(test) not in self.decided_quantifiers:
+            self.unrefined_type_tests.add(id(test))
         if alts:
             # the callee returns truthy / falsy values on paths with different facts
             tf = [fs for (val, fs) in alts if {self.truth(a) for a in val} & {'t', '?'}]
@@ -3808,6 +3951,15 @@ class Interp:
             if isinstance(s_, tuple) and s_ and s_[0] == 'ctr':
                 return ('ctr', s_[1], s_[2] + expr.left.value)
             return None
+        if isinstance(expr, ast.Subscript) and isinstance(expr.value, ast.Name) and isinstance(expr.slice, ast.BinOp) \
+                and isinstance(expr.slice.op, (ast.Add, ast.Sub)) and isinstance(expr.slice.left, ast.Name) and isinstance(expr.slice.right, ast.Constant) \
+                and type(expr.slice.right.value) is int:
+            inner = ast.copy_location(ast.Subscript(value=expr.value, slice=expr.slice.left, ctx=ast.Load()), expr)
+            s_ = self.sym_of(fr, inner)
+            if isinstance(s_, tuple) and s_ and s_[0] == 'at':
+                d_ = expr.slice.right.value if isinstance(expr.slice.op, ast.Add) else -expr.slice.right.value
+                return ('at', s_[1], s_[2] + d_)
+            return None
         if isinstance(expr, ast.Subscript) and isinstance(expr.value, ast.Name) and isinstance(expr.slice, ast.Name) \
                 and self.owner_frame(fr, expr.value.id) is fr and self.owner_frame(fr, expr.slice.id) is fr:
             # rows[i] of the physical lines: the element at the position the counter i has now (i is given a counter identity)
@@ -3824,7 +3976,80 @@ class Interp:
                 v = fr.store.vars.get(expr.value.id)
                 if v and any(a[0] == 'toks' for a in v):
                     return ('headof', expr.value.id, fr.fid)
+        if isinstance(expr, ast.Subscript) and isinstance(expr.slice, ast.Constant) and type(expr.slice.value) is int \
+                and isinstance(expr.value, (ast.Name, ast.Attribute)):
+            # item.args[1]: the element at a fixed position of a value that has an identity (facts about it die with that identity,
+            # and with any store through a subscript)
+            s_ = self.sym_of(fr, expr.value)
+            if isinstance(s_, tuple) and s_ and s_[0] in ('fld', 'val'):
+                return ('sub', s_, expr.slice.value)
         return None
+
+    def sym_or_make(self, fr, expr):
+        s_ = self.sym_of(fr, expr)
+        if s_ is None and isinstance(expr, ast.Name) and fr.scope is not None and self.owner_frame(fr, expr.id) is fr:
+            s_ = ('val', fr.fid, expr.id) + pos_of(expr)
+            fr.store.syms[expr.id] = s_
+        return s_ if (isinstance(s_, tuple) and s_ and s_[0] in ('val', 'fld', 'sub')) else None
+
+    def is_bounded(self, fr, expr):
+        """was the value of this expression compared against program-chosen bounds on both sides on every path to here"""
+        s_ = self.sym_of(fr, expr) if expr is not None else None
+        return s_ is not None and ('lb', s_) in fr.store.facts and ('ub', s_) in fr.store.facts
+
+    def bytes_bounded(self, fr, call):
+        """bytes([v, ...]) / data.append(v) / data.extend([v, ...]): was every user-sized v range-checked on the way here"""
+        if not isinstance(call, ast.Call) or len(call.args) != 1 or call.keywords:
+            return False
+        arg = call.args[0]
+        elts = arg.elts if isinstance(arg, (ast.List, ast.Tuple)) else [arg]
+        for e in elts:
+            if isinstance(e, ast.Starred):
+                return False
+            try:
+                v = self.eval(fr, e)
+            except (AnalysisError, Unreachable):
+                return False
+            if all(is_int_atom(a) and a != INT_U and a[0] != 'idx' for a in v):
+                continue
+            if not all(is_int_atom(a) for a in v) or not self.is_bounded(fr, e):
+                return False
+        return True
+
+    @staticmethod
+    def safe_bound(val):
+        return bool(val) and all(a == INT_S or (a[0] == 'c' and a[1] in ('int', 'bool')) for a in val)
+
+    def cond_bounds(self, fr, test, store):
+        """x < c, c <= x <= d ... with program-chosen c, d: which bounds of x hold on the true / false side"""
+        ops = test.ops
+        operands = [test.left] + list(test.comparators)
+        if not all(isinstance(o, (ast.Lt, ast.LtE, ast.Gt, ast.GtE)) for o in ops):
+            return None
+        vals = [self.eval(fr, e) for e in operands]
+        t_facts, f_facts = set(), set()
+        for i, o in enumerate(ops):
+            l, r = operands[i], operands[i + 1]
+            lv, rv = vals[i], vals[i + 1]
+            less = isinstance(o, (ast.Lt, ast.LtE))
+            for subj, sv, other, ov, subj_is_small in ((l, lv, r, rv, less), (r, rv, l, lv, not less)):
+                if self.safe_bound(ov) and not self.safe_bound(sv) and all(is_int_atom(a) or a in (TOP, DATA, FLOAT) for a in sv):
+                    sy = self.sym_or_make(fr, subj)
+                    if sy is None:
+                        continue
+                    # subj (small side) < other  => upper bound when true, lower bound when false (single comparison only)
+                    t_facts.add(('ub' if subj_is_small else 'lb', sy))
+                    if len(ops) == 1:
+                        f_facts.add(('lb' if subj_is_small else 'ub', sy))
+        if not t_facts and not f_facts:
+            return None
+        s_t, s_f = store, store.copy()
+        s_t.facts = s_t.facts | t_facts
+        s_f.facts = s_f.facts | f_facts
+        return True, s_t, True, s_f
+
+    def fact_syms_tags(self, sym):
+        return {sym[1]} if sym[0] == 'fld' else set()
 
     def field_sym(self, fr, name_node, attr):
         try:
@@ -3859,6 +4084,21 @@ class Interp:
         yes, no = set(), set()
         self.partition_unknown = False
         for a in val:
+            if a[0] == 'caught':
+                ky, kn = set(), set()
+                for rec in self.recs_of(a):
+                    r_ = self.atom_is_instance(rec.atom, names, exact)
+                    if r_ == 'f' and not isinstance(rec.origin, ast.Raise) and any(self.is_subclass(n_, rec.atom[1]) for n_ in names):
+                        r_ = '?'        # a library raiser / stand-in stands for any exception below its class
+                    if r_ in ('t', '?'):
+                        ky.add(rec.key())
+                    if r_ in ('f', '?'):
+                        kn.add(rec.key())
+                if ky:
+                    yes.add(('caught', a[1], frozenset(ky)))
+                if kn:
+                    no.add(('caught', a[1], frozenset(kn)))
+                continue
             r = self.atom_is_instance(a, names, exact)
             if r == 't':
                 yes.add(a)
@@ -3889,7 +4129,7 @@ class Interp:
             return 't' if any(self.is_subclass(a[1], n) for n in names) else 'f'
         if k == 'caught':
             res = set()
-            for rec in self.caught_tbl.get(a[1], []):
+            for rec in self.recs_of(a):
                 r_ = self.atom_is_instance(rec.atom, names, exact)
                 if r_ == 'f' and not isinstance(rec.origin, ast.Raise) and any(self.is_subclass(n_, rec.atom[1]) for n_ in names):
                     r_ = '?'        # a library raiser stands for any exception below its class
@@ -3947,7 +4187,14 @@ class Interp:
             name = test.args[0].id if isinstance(test.args[0], ast.Name) else None
             if self.partition_unknown:
                 self.unrefined_type_tests.add(id(test))
-            return self.split(fr, store, refine, name, yes, no)
+            ye = ne = None
+            if xv and all(a[0] == 'caught' for a in xv) and store.vars.get('$handling') and {a[1] for a in xv} == {a[1] for a in store.vars['$handling']}:
+                def ye(s_, yes=yes):
+                    s_.vars['$handling'] = yes
+
+                def ne(s_, no=no):
+                    s_.vars['$handling'] = no
+            return self.split(fr, store, refine, name, yes, no, yes_extra=ye, no_extra=ne)
         if d == 'issubclass' and len(test.args) == 2 and self.is_builtin_name(fr, 'issubclass'):
             subject, by_name = self.type_subject(test.args[0])
             if subject is not None and not by_name:
@@ -4012,6 +4259,13 @@ class Interp:
             if ct and gained:
                 s_t.facts = s_t.facts | gained
             return ct, s_t, cf, s_f
+        if isinstance(test.func, ast.Attribute) and test.func.attr == 'isdecimal' and not test.args and isinstance(test.func.value, ast.Name):
+            # text made of decimal digits only: int() accepts it (isdigit() is not enough: it is also true for '\u00b2')
+            xv = self.eval(fr, test.func.value)
+            yes = frozenset(('str', 's', 'digits') if (a[0] in ('str', 'tok')) else a for a in xv
+                            if not (a[0] == 'c' and a[1] == 'str' and not a[2].isdecimal()) and (is_str_atom(a) or a in (TOP, DATA)))
+            no = frozenset(a for a in xv if not (a[0] == 'c' and a[1] == 'str' and a[2].isdecimal()))
+            return self.split(fr, store, refine, test.func.value.id, yes, no)
         if isinstance(test.func, ast.Attribute) and test.func.attr == 'startswith' and len(test.args) == 1:
             v = self.eval(fr, test)
             kv = self.eval(fr, test.args[0])
@@ -4046,18 +4300,20 @@ class Interp:
                 itv = self.eval(fr, gen.iter)
                 mode, elems = self.iteration(fr, itv, gen.iter)
                 gained = frozenset()
+                truths = set()
                 if mode == 'exact' and len(elems) <= MAX_UNROLL:
                     ok = True
                     for e in elems:
                         try:
                             self.assign(fr, gen.target, self.fresh_elem(fr, e, gen), gen)
-                            self.eval(fr, arg.elt)
+                            ev_ = self.eval(fr, arg.elt)
+                            truths |= {self.truth(a_) for a_ in ev_}
                         except Unreachable:
                             ok = False
                             break
                     if ok and elems:
                         gained = fr.store.facts - store0.facts
-                    res = av(BOOL) if elems else av(const(True))
+                    res = av(BOOL) if (elems and truths != {'t'}) else av(const(True))
                 else:
                     if mode == 'exact':
                         x = BOT
@@ -4067,10 +4323,11 @@ class Interp:
                     if elems:
                         try:
                             self.assign(fr, gen.target, self.fresh_elem(fr, elems, gen), gen)
-                            self.eval(fr, arg.elt)
+                            ev_ = self.eval(fr, arg.elt)
+                            truths |= {self.truth(a_) for a_ in ev_}
                         except Unreachable:
-                            pass
-                    res = av(BOOL)
+                            truths.add('?')
+                    res = av(const(True)) if (not elems or truths == {'t'}) else av(BOOL)
             except Unreachable:
                 fr.store = store0
                 raise
@@ -4124,6 +4381,11 @@ class Interp:
             else:
                 v = self.eval(fr, a)
                 s_ = self.sym_of(fr, a)
+                if s_ is None and isinstance(a, ast.Name) and fr.scope is not None and self.owner_frame(fr, a.id) is fr \
+                        and all(is_str_atom(b) or is_int_atom(b) or b == NONE for b in v):
+                    # the value this local holds until it is rebound: lets "f(x) returned normally" be remembered for plain values
+                    s_ = ('val', fr.fid, a.id) + pos_of(a)     # the site tells this value from one the name holds after a rebinding
+                    fr.store.syms[a.id] = s_
                 for args in alts:
                     if args.star is not None:
                         args.star = join(args.star, v)
@@ -4172,6 +4434,15 @@ class Interp:
                 v, _ = self.eval_all(fr, node)
                 fr.store.facts = facts0
                 return v
+        if isinstance(f, ast.Name) and f.id in ('isinstance', 'issubclass', 'hasattr', 'callable') and self.is_builtin_name(fr, f.id):
+            r_ = self.cond_call(fr, node, fr.store, False)
+            if r_ is not None:
+                ct, _, cf, _ = r_
+                if ct and not cf:
+                    return av(const(True))
+                if cf and not ct:
+                    return av(const(False))
+                return av(BOOL)
         if isinstance(f, ast.Attribute):
             return self.method_call(fr, node)
         callee = self.eval(fr, f)
@@ -4488,6 +4759,12 @@ class Interp:
         tin = set()
         for v in bound.values():
             tags_of(v, acc=tin)
+        for s_ in syms.values():
+            # a plain value read from a field of a tagged object: what the callee learns about it is about that object
+            while isinstance(s_, tuple) and s_ and s_[0] == 'sub':
+                s_ = s_[1]
+            if isinstance(s_, tuple) and s_ and s_[0] == 'fld':
+                tin.add(s_[1])
         if parent is not None:
             tin |= parent.valid_tags()
         facts_in = frozenset(f for f in fr.store.facts if self.fact_tags(f) <= tin)
@@ -4524,7 +4801,9 @@ class Interp:
             self.ev_discharge[id(node)] = (fr.qual, node, 'dominated', q, okfact)
         if not suppress:
             for rec in summ.excs.values():
-                fr.pending.append(rec.retag(f).via(fr.qual, node))
+                r_ = rec.retag(f).via(fr.qual, node)
+                r_.pfacts = fr.store.facts
+                fr.pending.append(r_)
         if not summ.pure and fr.summary is not None:
             fr.summary.pure = False
         if summ.facts is None:
@@ -4591,12 +4870,34 @@ class Interp:
                 return a
         return None
 
+    @staticmethod
+    def mentions_sub(fact):
+        def has(s):
+            return isinstance(s, tuple) and bool(s) and s[0] == 'sub'
+        if fact[0] in ('lb', 'ub'):
+            return has(fact[1])
+        if fact[0] == 'in':
+            return True         # the table may be the one stored into
+        if fact[0] == 'ok':
+            return any(has(s) for _, s in fact[2])
+        return False
+
     def fact_tags(self, fact):
         out = set()
+
+        def of(s):
+            if isinstance(s, tuple) and s and s[0] == 'fld':
+                out.add(s[1])
+            elif isinstance(s, tuple) and s and s[0] == 'sub':
+                of(s[1])
+        if fact[0] in ('lb', 'ub'):
+            of(fact[1])
+        if fact[0] == 'in':
+            of(fact[1])
+            of(fact[2])
         if fact[0] == 'ok':
             for _, s in fact[2]:
-                if isinstance(s, tuple) and s and s[0] == 'fld':
-                    out.add(s[1])
+                of(s)
         return out
 
     def ok_fact(self, q, fnnode, bound, syms):
@@ -4784,7 +5085,7 @@ class Interp:
             # an object that holds classes / callables (exception types of a context manager, a builder ...): what it does
             # depends on where it was made, so its attributes are kept per construction site
             oname = '{}@a{}:{}{}'.format(cname, getattr(node, 'lineno', 0), getattr(node, 'col_offset', 0),
-                                         ''.join('#%d' % i_ for i_ in self.unroll_index) if self.summary_depth == 0 else '')
+                                         (''.join('#%d' % i_ for i_ in self.unroll_index) + '~%d' % fr.fid) if self.summary_depth == 0 else '')
             order = self.attr_order.setdefault(oname, [])
             for attr, val, snode in stores:
                 if attr not in order:
@@ -4856,7 +5157,7 @@ class Interp:
                     elif a[0] == 'seq':
                         for e in a[2]:
                             elems = join(elems, e)
-                    if any(b == INT_U or b[0] == 'idx' for b in elems):
+                    if any(b == INT_U or b[0] == 'idx' for b in elems) and not self.bytes_bounded(fr, node):
                         self.library_raise(fr, 'ValueError', node)     # bytes([v]) needs 0 <= v < 256
                         break
             return av(BYTES)
@@ -4870,7 +5171,7 @@ class Interp:
                 return av(('seq', kind, ()))
             out = BOT
             for a in x:
-                if a[0] == 'toks' and cname == 'list':
+                if a[0] in ('toks', 'lines') and cname in ('list', 'tuple'):
                     out = join(out, av(a))
                     continue
                 mode, elems = self.iteration(fr, av(a), node)
@@ -4985,7 +5286,7 @@ class Interp:
             elif a[0] == 'str':
                 if a[1] == 'u':
                     raises = True
-                    if a[2] == 'maybe-size':
+                    if a[2] in ('maybe-size', 'matched'):
                         unsure_tok = True
                 out.add(INT_U if a[1] == 'u' else INT_S)
             elif is_int_atom(a) or a == FLOAT:
@@ -4998,13 +5299,25 @@ class Interp:
                 out.add(INT_U)
             else:
                 out.add(INT_U)
+        xsym = args.syms.get(0)
+        base = args.kw.get('base', args.pos[1] if len(args.pos) > 1 else av(const(10)))
+        okf = None
+        if isinstance(xsym, tuple) and xsym and xsym[0] in ('val', 'fld', 'sub') and len(base) == 1 and is_const(next(iter(base))):
+            okf = ('ok', 'int', (('base', next(iter(base))), ('x', xsym)))
+        if raises and okf is not None and okf in fr.store.facts:
+            # the same conversion of the same unchanged value already succeeded on every path to here
+            self.ev_discharge[id(node)] = (fr.qual, node, 'dominated', 'int', okf)
+            raises = False
         if raises:
-            really = sure_tok or any((a[0] == 'str' and a[1] == 'u' and a[2] != 'maybe-size') or (a[0] == 'c' and a[1] == 'str') for a in args.pos[0])
+            really = sure_tok or any((a[0] == 'str' and a[1] == 'u' and a[2] not in ('maybe-size', 'matched')) or (a[0] == 'c' and a[1] == 'str') for a in args.pos[0])
             self.library_raise(fr, 'ValueError', node, uncertain=not really)
+        if okf is not None:
+            fr.store.facts = fr.store.facts | {okf}
         return frozenset(out)
 
     def library_raise(self, fr, exc, node, uncertain=False):
         rec = ExcRec(('obj', exc, None), node, ((fr.qual, node),), uncertain=uncertain)
+        rec.pfacts = fr.store.facts
         self.ev_origin[id(node)] = (fr.qual, node, exc)
         fr.pending.append(rec)
 
@@ -5038,7 +5351,7 @@ class Interp:
                         c, q = self.find_method(a[1], '__len__')
                         if q is not None:
                             self.call_user(fr, ('fn', q), Args(), node, av(a))
-            return av(INT_U)
+            return av(INT_S)        # a length is bounded by what fits in memory: not a magnitude the user picks freely
         if name in ('isinstance', 'issubclass', 'hasattr', 'callable'):
             return av(BOOL)
         if name == 'getattr':
@@ -5119,6 +5432,20 @@ class Interp:
                 return av(('seq', 'tuple', (av(INT_S if safe_a else INT_U), av(INT_S if (safe_b or safe_a) else INT_U))))
             return av(TOP)
         if name in ('any', 'all'):
+            if x is not None:
+                mode, es = self.iteration(fr, x, node)
+                vals_ = BOT
+                for e in (es if mode == 'exact' else [es]):
+                    vals_ = join(vals_, e)
+                ts = {self.truth(a) for a in vals_}
+                if ts <= {'t', 'f'}:
+                    # every element is known to be true or known to be false: the outcome depends on which elements there
+                    # are, not on a test the interpretation could not follow
+                    self.decided_quantifiers.add(id(node))
+                if name == 'any' and ts <= {'f'}:
+                    return av(const(False))     # no element can be true (also when there is none)
+                if name == 'all' and ts <= {'t'}:
+                    return av(const(True))
             return av(BOOL)
         if name == 'ord':
             return av(INT_S)
@@ -5162,8 +5489,20 @@ class Interp:
                 if not elems:
                     return av(('list', BOT))
                 elems = self.fresh_elem(fr, elems, node)
+                if name == 'filter':
+                    elems = self.mark_moved(elems)
                 if name == 'filter' and pos[0] == av(NONE):
                     return av(('list', erase_tags(frozenset(a for a in elems if a != NONE))))
+                if name == 'filter':
+                    kept = set()
+                    for a in elems:
+                        try:
+                            r_ = self.call_value(fr, frozenset(b for b in pos[0] if b != NONE), Args([av(a)]), node)
+                        except Unreachable:
+                            continue
+                        if {self.truth(b) for b in r_} & {'t', '?'}:
+                            kept.add(a)
+                    return av(('list', erase_tags(frozenset(kept))))
                 r = self.call_value(fr, frozenset(a for a in pos[0] if a != NONE), Args([elems]), node)
                 return av(('list', erase_tags(r if name == 'map' else elems)))
             return av(TOP)
@@ -5180,6 +5519,11 @@ class Interp:
             fr.call_alts[id(node)] = alts
             return out
         if name in ('iter', 'next'):
+            if x is not None and any(a[0] == 'lines' for a in x):
+                if name == 'next':
+                    raise self.err(node, 'next() on the source lines (which line is which afterwards is not followed)')
+                if all(a[0] == 'lines' for a in x):
+                    return x
             if x is not None:
                 mode, elems = self.iteration(fr, x, node)
                 if mode == 'exact':
@@ -5286,7 +5630,7 @@ class Interp:
                         elif b[0] == 'seq':
                             for e in b[2]:
                                 vals = join(vals, e)
-                    if any(b == INT_U or b[0] == 'idx' for b in vals):
+                    if any(b == INT_U or b[0] == 'idx' for b in vals) and not self.bytes_bounded(fr, node):
                         self.library_raise(fr, 'ValueError', node)     # a byte must be in range(0, 256)
                         break
                 return av(NONE), None
@@ -5370,7 +5714,11 @@ class Interp:
                 return av(TOP), None
             if kind == 're.Match':
                 if attr in ('group', '__getitem__'):
-                    return av(STR_U), None
+                    which = self.const_int(x) if x is not None else 0
+                    if which is not None and len(a) > 2 and self.group_is_decimal(a[2], which):
+                        return av(('str', 's', 'digits')), None
+                    # text the pattern let through: whether a conversion of it can fail is not known
+                    return av(('str', 'u', 'matched')), None
                 if attr in ('groups',):
                     return av(('list', av(STR_U, NONE))), None
                 if attr == 'groupdict':
@@ -5383,13 +5731,71 @@ class Interp:
             return av(TOP), None
         if is_int_atom(a):
             if attr == 'to_bytes':
-                if a in (INT_U,) or k == 'idx' or a == ('int', 'fsize'):
+                recv = node.func.value if isinstance(node, ast.Call) and isinstance(node.func, ast.Attribute) else None
+                if (a in (INT_U,) or k == 'idx' or a == ('int', 'fsize')) and not self.is_bounded(fr, recv):
                     self.library_raise(fr, 'OverflowError', node)      # a value the user sizes need not fit the given length
                 return av(BYTES), None
             if attr == 'bit_length':
                 return av(INT_S), None
             return BOT, None        # AttributeError: not among the judged faults
         return av(TOP), None
+
+    @staticmethod
+    def group_is_decimal(pat, which):
+        """does group `which` of the (constant) pattern match decimal digits only (so that int() accepts it)"""
+        if not pat or not all(is_const(p_) and p_[1] == 'str' for p_ in pat):
+            return False
+        try:
+            import re._parser as sre
+            import re._constants as C_
+        except ImportError:
+            return False
+
+        def digits(items):
+            for op, arg in items:
+                if op is C_.IN:
+                    if not all((o2 is C_.CATEGORY and a2 is C_.CATEGORY_DIGIT) or (o2 is C_.RANGE and 48 <= a2[0] <= a2[1] <= 57)
+                               or (o2 is C_.LITERAL and 48 <= a2 <= 57) for o2, a2 in arg):
+                        return False
+                elif op is C_.LITERAL:
+                    if not 48 <= arg <= 57:
+                        return False
+                elif op in (C_.MAX_REPEAT, C_.MIN_REPEAT):
+                    if arg[0] < 1 or not digits(arg[2]):
+                        return False
+                elif op is C_.SUBPATTERN:
+                    if not digits(arg[3]):
+                        return False
+                else:
+                    return False
+            return True
+
+        def find(items, n):
+            for op, arg in items:
+                if op is C_.SUBPATTERN:
+                    if arg[0] == n:
+                        return arg[3]
+                    r = find(arg[3], n)
+                    if r is not None:
+                        return r
+                elif op in (C_.MAX_REPEAT, C_.MIN_REPEAT):
+                    r = find(arg[2], n)
+                    if r is not None:
+                        return r
+                elif op is C_.BRANCH:
+                    return None
+            return None
+        for p_ in pat:
+            try:
+                tree = sre.parse(p_[2])
+            except Exception:
+                return False
+            grp = list(tree) if which == 0 else find(tree, which)
+            if which == 0:
+                grp = [it_ for it_ in grp if it_[0] is not C_.AT]
+            if grp is None or not grp or not digits(grp):
+                return False
+        return True
 
     def dict_method(self, fr, a, attr, args, node):
         k = a[0]
@@ -5704,6 +6110,15 @@ class Interp:
                                                (const('type'), av(TOP)), (const('default'), av(TOP))), ('dcfield',))))
                 out = join(out, av(('seq', 'tuple', tuple(descs))))
             return out
+        if name == 'itertools.count':
+            start = 0
+            sv = args.kw.get('start') or (pos[0] if pos else None)
+            if sv is not None:
+                start = self.const_int(sv)
+            step = args.kw.get('step') or (pos[1] if len(pos) > 1 else None)
+            if step is not None and self.const_int(step) != 1:
+                start = None
+            return av(('count', start))
         if name in ('itertools.chain', 'itertools.chain.from_iterable'):
             srcs = pos
             if name.endswith('from_iterable') and pos:
@@ -5819,7 +6234,7 @@ class Interp:
                         sz = sz | a[2][1]
                 return av(('toks', None, None, sz))
             if fn in ('match', 'search', 'fullmatch'):
-                return av(NONE, ('libobj', 're.Match'))
+                return av(NONE, ('libobj', 're.Match', x if x is not None else av(TOP)))
             if fn in ('findall',):
                 src = pos[1] if len(pos) > 1 else args.kw.get('string', av(STR_U))
                 sz = frozenset()
@@ -5843,8 +6258,12 @@ class Interp:
                 fmt_ok = x is not None and all(is_const(a) and a[1] in ('str', 'bytes') for a in x)
                 vals_user = False
                 if fn == 'pack':
-                    for v in pos[1:]:
+                    exprs = list(node.args[1:]) if isinstance(node, ast.Call) and not any(isinstance(a_, ast.Starred) for a_ in node.args) \
+                        and dotted(node.func) in ('struct.pack',) else []
+                    for i_, v in enumerate(pos[1:]):
                         if self.user_value(v):
+                            if i_ < len(exprs) and all(is_int_atom(a_) for a_ in v) and self.is_bounded(fr, exprs[i_]):
+                                continue        # compared against program-chosen bounds on both sides before being packed
                             vals_user = True
                     if args.star is not None and self.user_value(args.star):
                         vals_user = True
@@ -5852,8 +6271,7 @@ class Interp:
                     vals_user = True
                 if not fmt_ok or vals_user:
                     sure = (x is not None and any(a != TOP and not (is_const(a) and a[1] in ('str', 'bytes')) for a in x)) \
-                        or any(self.user_value(v, sure=True) for v in pos[1:]) or (args.star is not None and self.user_value(args.star, sure=True)) \
-                        or fn.startswith('unpack') or fn == 'iter_unpack'
+                        or (fn == 'pack' and (any(self.user_value(v, sure=True) for v in pos[1:]) or (args.star is not None and self.user_value(args.star, sure=True))))
                     self.library_raise(fr, 'struct.error', node, uncertain=not sure)
                 if fn == 'calcsize':
                     return av(INT_S)
@@ -5926,6 +6344,7 @@ class Interp:
                     ev.clear()
                 self.approx_sites.clear()
                 self.unrefined_type_tests.clear()
+                self.decided_quantifiers.clear()
                 self.reached.clear()
                 self.reached_nodes.clear()
                 self.mutated_fields.clear()
